@@ -780,6 +780,18 @@ func (h *vRs) exec(op []string) {
 		a.lock.Unlock()
 		h.noteAccepted(y)
 		res = vRsPktSummary(h.e[x].hist[i]) + " => " + vRsErr(err)
+	case "remember": // white box, in bulk: rs remember x rsn query -> the D10 bookkeeping after the REAL rememberPerformedReset(rsn)
+		a := h.e[int(u(2))].a
+		a.lock.Lock()
+		a.rememberPerformedReset(u(3))
+		_, has := a.performedResetRSNs[u(4)]
+		res = fmt.Sprintf("newest=%d size=%d has=%s", a.newestPerformedReset, len(a.performedResetRSNs), vb(has))
+		a.lock.Unlock()
+		h.l.line(line, res)
+		return
+	case "shift": // the remember ops that follow are issued to endpoint 1 with every number shifted by this constant
+		h.l.line(line, "")
+		return
 	case "trc": // T-reconfig expires
 		h.e[int(u(2))].a.onRetransmissionTimeout(timerReconfig, 1)
 		res = "ok"
@@ -1069,6 +1081,8 @@ func vRsGenerate(h *vRs, r *vrand, nseq int) {
 			vRsScriptD10(g)
 		case 6:
 			vRsScriptD16(g)
+		case 7:
+			vRsScriptRemember(g, s/8)
 		default:
 			sids := []uint16{1, 2, 7}[:1+r.n(3)]
 			cycles := 1 + r.n(3)
@@ -1233,6 +1247,43 @@ func vRsScriptD16(g *vRsGen) {
 	g.app(1, false)
 	h.do("rs close 0 %d", hd2)
 	g.settle(10, true)
+}
+
+// the performed-request set of the D10 fix, driven directly: thousands of consecutive request numbers (the trim at
+// 2048 entries runs), from start values in the lower half, the upper half, at 0 and just below the wrap; endpoint 1
+// gets the same calls shifted by a constant (shift pair); queries for recent, old and never-remembered numbers
+func vRsScriptRemember(g *vRsGen, k int) {
+	h, r := g.h, g.r
+	g.st("script.remember")
+	starts := []uint32{5000, 0x80000001, 0xFFFFFFFF - 1500, 0, 0x7FFFFFFF - 1000, 0xFFFFFFFF, r.u32()}
+	start := starts[k%len(starts)]
+	shifts := []uint32{0x80000000, 1, 0xFFFFF000, r.u32(), 0x7FFFFFFF}
+	d := shifts[(k/len(starts)+k)%len(shifts)]
+	h.do("rs shift %d", d)
+	n := 2100 + r.n(300)
+	for i := 0; i < n; i++ {
+		rsn := start + uint32(i)
+		var q uint32
+		switch c := r.n(10); {
+		case c < 4:
+			q = rsn - uint32(r.n(1025)) // within the window that must be remembered
+		case c < 6:
+			q = rsn - 1025 - uint32(r.n(1200)) // older: may have been trimmed
+		case c < 7:
+			q = start
+		case c < 8:
+			q = rsn + 1 + uint32(r.n(5)) // never remembered
+		default:
+			q = rsn
+		}
+		if r.chance(3) && i > 10 { // a duplicate of an older number: must not move the watermark back
+			rsn = start + uint32(i-1-r.n(10))
+			g.st("remember.duplicate")
+		}
+		h.do("rs remember 0 %d %d", rsn, q)
+		h.do("rs remember 1 %d %d", rsn+d, q+d)
+		g.st("remember.calls")
+	}
 }
 
 func TestVerifReset(t *testing.T) {
